@@ -480,6 +480,7 @@ RULE_ADDENDA_R9 = {
     "C06": ("Sub-path segments include a 2 KiB one; derived addresses include ones that end in a space (read back by the parser of their own kind)."),
     "C07": ("Violations are also spelled behind an empty sub-path ('//?checksum=...')."),
     "C09": ("The directory the archive is extracted into held a bundle that knew the same registry packages and was asked about them."),
+    "C10": ("A fetcher may replace the directory it is given by a link to a checkout elsewhere (the build must fail and the checkout stay untouched)."),
     "C12": ("Bundlefaults also makes the n-th fetch or analysis panic (the caller recovers): the builder is spent. Diagnostics also runs with a tracer on the first call only, or on the later calls only."),
     "C15": ("Concurrentunpack sub-check (a -race binary): 2-5 archives unpacked at the same time through one Packer value, each destination compared with what its archive gives alone."),
     "C16": ("Spellings include relative ones with '..' from a working directory entered through a symlink with $PWD spelling it that way; history operations include a Pack of the directory above."),
